@@ -106,6 +106,14 @@ def gen_cases(ctx):
                 l["setUpRaises"] = []
                 l["tearDownFaults"] = [f for f in l["tearDownFaults"] if f[1] == 2]
             w["modules"] = {k: v for k, v in w["modules"].items() if not v.get("importError")}
+        if i % 9 == 4:
+            # a layer (an "abstract" base layer, say) whose setUp raises NotImplementedError - or an OSError: a setUp that
+            # raised is something that went wrong, whatever the class (only a tearDown may say "not supported")
+            cand = [l for l in w["layers"] if l["kind"] != "unit" and l["setUp"]]
+            if cand:
+                l_ = rng.choice(cand)
+                l_["setUpRaises"] = [rng.choice([0, 999999])]
+                l_["excStyle"] = rng.choice(["notimpl", "notimpl", "oserror"])
         # noise that must not matter
         for t in w["tests"]:
             if rng.random() < 0.15:
